@@ -681,12 +681,22 @@ func (e *Engine) scenario(s *State, cm *CachedModel, ob string) *Scenario {
 		}
 		// string variables the path condition equates with a concatenation are spelled out first
 		eqs := map[int]*Term{}
-		for _, a := range s.pcTerms() {
+		var conj func(a *Term)
+		conj = func(a *Term) {
+			if a.Op == "and" {
+				for _, c := range a.Args {
+					conj(c)
+				}
+				return
+			}
 			if x, t, ok := constEqOf(a); ok && x.Sort == SStr {
 				if _, dup := eqs[x.ID]; !dup {
 					eqs[x.ID] = t
 				}
 			}
+		}
+		for _, a := range s.pcTerms() {
+			conj(a)
 		}
 		smemo := map[int]*Term{}
 		for _, app := range ufApps(s.pcTerms(), "strlt") {
